@@ -12,6 +12,9 @@ pub mod c05;
 pub mod c06;
 pub mod c07;
 pub mod c08;
+pub mod c09;
+pub mod c10;
+pub mod c11;
 pub mod c12;
 pub mod c13;
 pub mod dictops;
@@ -108,6 +111,9 @@ pub fn run(id: &str, opts: &Opts) -> Option<Report> {
         "C06" => c06::run(opts),
         "C07" => c07::run(opts),
         "C08" => c08::run(opts),
+        "C09" => c09::run(opts),
+        "C10" => c10::run(opts),
+        "C11" => c11::run(opts),
         "C12" => c12::run(opts),
         "C13" => c13::run(opts),
         _ => return None,
@@ -123,6 +129,9 @@ pub fn replay(id: &str, path: &Path) -> Option<i32> {
         "C06" => c06::replay(path),
         "C07" => c07::replay(path),
         "C08" => c08::replay(path),
+        "C09" => c09::replay(path),
+        "C10" => c10::replay(path),
+        "C11" => c11::replay(path),
         "C12" => c12::replay(path),
         "C13" => c13::replay(path),
         _ => None,
